@@ -175,6 +175,28 @@ static NOINSTR bool inputs_modified() {
 /* --------------------------------------------------------------------------------------------- operation menu */
 typedef void (*opfn)(Out&);
 #define OP(name) static void op_##name(Out& o)
+/* Outputs are compared byte for byte between schedules, so they must hold VALUES only: the padding bytes of a struct (after the bool of an
+ * affine point, after a key's flag or a slot's index) are unspecified - a library that decodes into a local and assigns the struct leaves
+ * whatever the thread's stack held there.  Affine results are canonicalised in place, keys are packed field by field. */
+static NOINSTR void canon_aff(uint8_t* p, size_t coord_bytes, size_t total) {
+    p[coord_bytes] = p[coord_bytes] ? 1 : 0;
+    if (total > coord_bytes + 1) memset(p + coord_bytes + 1, 0, total - coord_bytes - 1);
+}
+#define CANON_G1AFF(p) canon_aff((uint8_t*) (p), 96, sizeof(embedded_pairing_bls12_381_g1affine_t))
+#define CANON_G2AFF(p) canon_aff((uint8_t*) (p), 192, sizeof(embedded_pairing_bls12_381_g2affine_t))
+static NOINSTR void pack_key(uint8_t* out, const embedded_pairing_wkdibe_secretkey_t* k, const embedded_pairing_wkdibe_freeslot_t* b, int nb) {
+    size_t n = 0;
+    memcpy(out + n, &k->a0, sizeof(k->a0)); n += sizeof(k->a0);
+    memcpy(out + n, &k->a1, sizeof(k->a1)); n += sizeof(k->a1);
+    memcpy(out + n, &k->l, sizeof(k->l)); n += sizeof(k->l);
+    out[n++] = k->signatures ? 1 : 0;
+    memcpy(out + n, &k->bsig, sizeof(k->bsig)); n += sizeof(k->bsig);
+    for (int i = 0; i < nb; i++) {
+        memcpy(out + n, &b[i].hexp, sizeof(b[i].hexp)); n += sizeof(b[i].hexp);
+        memcpy(out + n, &b[i].idx, sizeof(b[i].idx)); n += sizeof(b[i].idx);
+    }
+}
+
 OP(fq_inverse) { vk_fq_inverse(o.bytes, &IN.fq_a); }
 OP(fq_sqrt) { vk_fq_square_root(o.bytes, &IN.fq_a); }
 OP(fr_sqrt) { vk_fr_square_root(o.bytes, &IN.fr_a); }
@@ -196,11 +218,11 @@ OP(g2_multiply) { embedded_pairing_bls12_381_g2_multiply((embedded_pairing_bls12
 OP(gt_multiply) { embedded_pairing_bls12_381_gt_multiply((embedded_pairing_bls12_381_fq12_t*) o.bytes, &IN.gt, &IN.scalar); }
 OP(wnaf_recode) { int g; int n = vk_wnaf_recode_256_4(o.bytes, &IN.scalar, &g); memcpy(o.bytes + 300, &n, sizeof(n)); }
 OP(decompose) { vk_powersofx_decompose(o.bytes, &IN.scalar); }
-OP(g1_encode_decode) { vk_g1c_encode(o.bytes, &IN.g1aff); int ok = vk_g1c_decode(o.bytes + 64, IN.g1enc, 1); o.bytes[400] = (uint8_t) ok; }
-OP(g2_encode_decode) { vk_g2c_encode(o.bytes, &IN.g2aff); int ok = vk_g2c_decode(o.bytes + 128, IN.g2enc, 1); o.bytes[600] = (uint8_t) ok; }
-OP(hash_to_g1) { embedded_pairing_bls12_381_g1affine_from_hash((embedded_pairing_bls12_381_g1affine_t*) o.bytes, IN.hash); }
-OP(hash_to_g2) { embedded_pairing_bls12_381_g2affine_from_hash((embedded_pairing_bls12_381_g2affine_t*) o.bytes, IN.hash); }
-OP(hash_to_id) { embedded_pairing_lqibe_compute_id_from_hash((embedded_pairing_lqibe_id_t*) o.bytes, (const embedded_pairing_lqibe_idhash_t*) IN.hash); }
+OP(g1_encode_decode) { vk_g1c_encode(o.bytes, &IN.g1aff); int ok = vk_g1c_decode(o.bytes + 64, IN.g1enc, 1); CANON_G1AFF(o.bytes + 64); o.bytes[400] = (uint8_t) ok; }
+OP(g2_encode_decode) { vk_g2c_encode(o.bytes, &IN.g2aff); int ok = vk_g2c_decode(o.bytes + 128, IN.g2enc, 1); CANON_G2AFF(o.bytes + 128); o.bytes[600] = (uint8_t) ok; }
+OP(hash_to_g1) { embedded_pairing_bls12_381_g1affine_from_hash((embedded_pairing_bls12_381_g1affine_t*) o.bytes, IN.hash); CANON_G1AFF(o.bytes); }
+OP(hash_to_g2) { embedded_pairing_bls12_381_g2affine_from_hash((embedded_pairing_bls12_381_g2affine_t*) o.bytes, IN.hash); CANON_G2AFF(o.bytes); }
+OP(hash_to_id) { embedded_pairing_lqibe_compute_id_from_hash((embedded_pairing_lqibe_id_t*) o.bytes, (const embedded_pairing_lqibe_idhash_t*) IN.hash); CANON_G1AFF(o.bytes); }
 OP(zp_from_hash) { embedded_pairing_bls12_381_zp_from_hash((embedded_pairing_core_bigint_256_t*) o.bytes, IN.hash); }
 OP(pairing) { embedded_pairing_bls12_381_pairing((embedded_pairing_bls12_381_fq12_t*) o.bytes, &IN.g1aff, &IN.g2aff); }
 OP(final_exponentiation) { vk_final_exponentiation(o.bytes, &IN.fq12_b); }
@@ -215,21 +237,21 @@ OP(g2_prepare) { static_assert(sizeof(embedded_pairing_bls12_381_g2prepared_t) <
 OP(wkdibe_keygen) {
     trs = 0x4567123ull; embedded_pairing_wkdibe_secretkey_t k; embedded_pairing_wkdibe_freeslot_t b[2]; memset(&k, 0, sizeof(k)); memset(b, 0, sizeof(b)); k.b = b;
     embedded_pairing_wkdibe_keygen(&k, &IN.sparams, &IN.smsk, &IN.al, thread_random);
-    k.b = nullptr; memcpy(o.bytes, &k, sizeof(k)); memcpy(o.bytes + 512, b, sizeof(b) < 500 ? sizeof(b) : 500);
+    pack_key(o.bytes, &k, b, 2);
 }
 OP(wkdibe_qualifykey) {
     trs = 0x5671234ull; embedded_pairing_wkdibe_secretkey_t k; embedded_pairing_wkdibe_freeslot_t b[2]; memset(&k, 0, sizeof(k)); memset(b, 0, sizeof(b)); k.b = b;
     embedded_pairing_wkdibe_qualifykey(&k, &IN.sparams, &IN.skey, &IN.al2, thread_random);
-    k.b = nullptr; memcpy(o.bytes, &k, sizeof(k)); memcpy(o.bytes + 512, b, sizeof(b) < 500 ? sizeof(b) : 500);
+    pack_key(o.bytes, &k, b, 2);
 }
 OP(wkdibe_sign) { trs = 0x6712345ull; embedded_pairing_wkdibe_sign((embedded_pairing_wkdibe_signature_t*) o.bytes, &IN.sparams, &IN.skey, &IN.al, &IN.sigmsg, thread_random); }
 OP(wkdibe_verify) { o.bytes[0] = embedded_pairing_wkdibe_verify(&IN.sparams, &IN.al, &IN.sig, &IN.sigmsg) ? 1 : 0; }
 OP(wkdibe_params_marshal) { embedded_pairing_wkdibe_params_marshal(o.bytes, &IN.sparams, true); }
 OP(wkdibe_precompute) { embedded_pairing_wkdibe_precompute((embedded_pairing_wkdibe_precomputed_t*) o.bytes, &IN.sparams, &IN.al); }
-OP(lqibe_keygen) { embedded_pairing_lqibe_keygen((embedded_pairing_lqibe_secretkey_t*) o.bytes, &IN.lqmsk, &IN.lqid[0]); }
+OP(lqibe_keygen) { embedded_pairing_lqibe_keygen((embedded_pairing_lqibe_secretkey_t*) o.bytes, &IN.lqmsk, &IN.lqid[0]); CANON_G1AFF(o.bytes); }
 /* two identities: thread-local choice by the output address parity would be fragile; instead each op has a fixed identity */
-OP(lqibe_encrypt0) { trs = 0x7123456ull; embedded_pairing_lqibe_encrypt((embedded_pairing_lqibe_ciphertext_t*) (o.bytes + 64), o.bytes, 32, &IN.lqparams, &IN.lqid[0], hash_fill_cb, thread_random); }
-OP(lqibe_encrypt1) { trs = 0x1234576ull; embedded_pairing_lqibe_encrypt((embedded_pairing_lqibe_ciphertext_t*) (o.bytes + 64), o.bytes, 32, &IN.lqparams, &IN.lqid[1], hash_fill_cb, thread_random); }
+OP(lqibe_encrypt0) { trs = 0x7123456ull; embedded_pairing_lqibe_encrypt((embedded_pairing_lqibe_ciphertext_t*) (o.bytes + 64), o.bytes, 32, &IN.lqparams, &IN.lqid[0], hash_fill_cb, thread_random); CANON_G2AFF(o.bytes + 64); }
+OP(lqibe_encrypt1) { trs = 0x1234576ull; embedded_pairing_lqibe_encrypt((embedded_pairing_lqibe_ciphertext_t*) (o.bytes + 64), o.bytes, 32, &IN.lqparams, &IN.lqid[1], hash_fill_cb, thread_random); CANON_G2AFF(o.bytes + 64); }
 OP(lqibe_decrypt0) { embedded_pairing_lqibe_decrypt(o.bytes, 32, &IN.lqct[0], &IN.lqsk[0], &IN.lqid[0], hash_fill_cb); }
 OP(lqibe_decrypt1) { embedded_pairing_lqibe_decrypt(o.bytes, 32, &IN.lqct[1], &IN.lqsk[1], &IN.lqid[1], hash_fill_cb); }
 
